@@ -18,7 +18,9 @@ INTERVAL = 1.0
 TIMEOUT = 1.0
 HORIZON = 8.0
 ACTIONS = ['open', 'poll', 'post_msg', 'post_close', 'ws_connect', 'ws_probe', 'ws_upgrade',
-           'ws_close', 'send', 'tick', 'vanish']
+           'ws_close', 'send', 'tick', 'vanish', 'send16']
+# a second root for the search: the state right after a completed upgrade (4 actions deep), explored 2 (thorough 3) further
+UPGRADED = ('open', 'ws_connect', 'ws_probe', 'ws_upgrade')
 
 
 class St:
@@ -47,6 +49,14 @@ def apply_action(w, st, a):
         return False
     if a == 'send':
         w.call('send', sid, 'from-app')
+        w.run()
+        return True
+    if a == 'send16':
+        # one application task queues a full batch (the per-payload packet limit) back to back
+        if getattr(st, 'burst', False):
+            return False
+        st.burst = True
+        w.call_seq('send', [(sid, 'b%d' % i) for i in range(16)])
         w.run()
         return True
     if st.vanished:
@@ -174,22 +184,34 @@ def run_probe(impl, hist, probe, out):
             h = w.http(method, query.replace('$', sid), **kw)
         else:
             _, _, fn, args, _ = probe
+            # who could drain the packet queue(s) the call may have to wait for: per live session, 'websocket' (writer task),
+            # 'poll_pending' (a long-poll is waiting) or 'none'; the weakest over the sessions the call addresses
+            def reader_of(x):
+                if x not in w.live_sids():
+                    return 'dead'
+                if w.transport(x) == 'websocket':
+                    return 'websocket'
+                pend = [r for r in w.reqs if not r.done and r.method == 'GET' and ('sid=' + x) in r.query]
+                return 'poll_pending' if pend and not st.vanished else 'none'
+            targets = [sid] if args and args[0] == '$' else (list(w.live_sids()) if not args else [])
+            rs = [reader_of(x) for x in targets]
+            reader = ([k for k in ('none', 'poll_pending', 'websocket', 'dead') if k in rs] or ['no_session'])[0]
             h = w.call(fn, *[sid if a == '$' else a for a in args])
         w.run()
         w.run_until(w.now + HORIZON)
         case = {'history': list(hist), 'probe': name}
 
-        def V(k, trigger, text, site=''):
+        def V(k, trigger, text, site='', **more):
             out.append(report.Violation(
-                {'impl': impl, 'kind': k, 'trigger': trigger, 'site': site},
+                dict({'impl': impl, 'kind': k, 'trigger': trigger, 'site': site}, **more),
                 '[%s] after %r, %s: %s' % (impl, list(hist), name, text),
                 {'impl': impl, 'case': case}, weight=(len(hist), len(name))))
         if kind == 'call':
             if not h.done:
                 site = w.blocked_site(h)
                 V('api_call_blocked', 'call=' + probe[2] + ('(sid)' if probe[3] else '()'),
-                  'call has not returned after %.0fs of virtual time; parked in %s' % (HORIZON, site),
-                  site[-1] if site else 'unknown')
+                  'call has not returned after %.0fs of virtual time; parked in %s (queue reader at the time of the call: %s)'
+                  % (HORIZON, site, reader), site[-1] if site else 'unknown', reader=reader)
             elif h.exc:
                 V('api_call_raised', 'call=' + probe[2] + ('(sid)' if probe[3] else '()'),
                   'raised %s: %s at %s' % (h.exc['type'], h.exc['text'], h.exc['site']),
@@ -236,11 +258,19 @@ def bfs(impl, depth):
     w, st = build(impl, ())
     seen[state_key(w, st)] = ()
     w.teardown()
+    w, st = build(impl, UPGRADED)
+    if w is not None:
+        seen.setdefault(state_key(w, st), UPGRADED)
+        w.teardown()
+        frontier.append(UPGRADED)
     transitions = 0
     maxd = 0
     while frontier:
         hist = frontier.popleft()
-        if len(hist) >= depth:
+        if hist[:4] == UPGRADED:
+            if len(hist) >= 4 + max(2, depth // 2):
+                continue
+        elif len(hist) >= depth:
             continue
         for a in ACTIONS:
             nh = hist + (a,)
@@ -295,7 +325,7 @@ def run(ctx):
                     {'history': ['open', 'post_close'], 'probe': 'disconnect_all'},
                     {'history': [], 'probe': 'disconnect_all'}],
         'evaluations': n, 'distinct_nontrivial': n,
-        'rule': 'breadth-first search over %r to depth %d with de-duplication on a canonical digest of sessions, queues, pending '
+        'rule': 'breadth-first search over %r to depth %d (and depth/2 further from the state reached by a completed upgrade) with de-duplication on a canonical digest of sessions, queues, pending '
                 'requests/sockets, events and next timer; in each of the distinct states each of %d probes (%d HTTP requests incl. '
                 'malformed bodies, %d API calls) is issued on a fresh replay and the world run %.0fs of virtual time past it. '
                 'states = distinct digests over both servers; transitions = history steps explored + probe executions.'
